@@ -1,6 +1,7 @@
 package twig
 
 import (
+	"reflect"
 	"strings"
 	"sync"
 
@@ -28,7 +29,11 @@ func (e *AutoEscapeExtension) Init(env *stick.Env) error {
 		}
 
 		if sval, ok := val.(stick.SafeValue); ok {
-			if sval.IsSafe(ct) {
+			// A typed nil pointer to a SafeValue implementation holds nothing:
+			// calling its methods would panic.
+			if r := reflect.ValueOf(val); r.Kind() == reflect.Ptr && r.IsNil() {
+				val = nil
+			} else if sval.IsSafe(ct) {
 				return val
 			}
 		}
